@@ -105,7 +105,9 @@ def b60(rng, df, force=None):
             if ias is not None and mach is not None:
                 # make IAS consistent with Mach at a Q-coded altitude (within 10 kt), or send "altitude unknown"
                 if rng.random() < 0.2:
-                    altcode = 0
+                    # "altitude unknown": the all-zero code, or a Gillham code with an illegal C1 C2 C4 pattern (000 / 101 / 111) - no
+                    # altitude, so no Mach/IAS cross-check either
+                    altcode = rng.choice((0, 0, rng.choice(_illegal_gillham())))
                 else:
                     n = rng.choice((rng.randrange(40, 1800), rng.randrange(1800, 2048), 2047, rng.randrange(0, 41)))   # below sea level (-1000 ft) up to the top of the Q range (50175 ft)
                     altft = n * 25 - 1000
@@ -130,6 +132,15 @@ def b60(rng, df, force=None):
                 altcode = rng.choice((0, ralt.q_code13(rng.randrange(2048))))
         if mb:
             return mb, altcode
+
+
+_ILLEGAL = []
+
+
+def _illegal_gillham():
+    if not _ILLEGAL:
+        _ILLEGAL.extend(c for c, v in ralt.altitude_table().items() if v is None and c != 0)
+    return _ILLEGAL
 
 
 def b40(rng):
